@@ -236,14 +236,20 @@ class Check:
 
     def lean(self, module: str, theorems: list[str], extra_targets: list[str] | None = None, checker: bool | None = None):
         """Build the property module (+ driver), audit it, register one obligation per theorem."""
-        targets = [module, "cdd_model"] + (extra_targets or [])
-        self.checker_cmd = "cd /verif/lean && lake build %s && lake env lean .audit/Audit_%s.lean  # #print axioms" % (" ".join(targets), self.prop)
+        targets = [module] + (extra_targets or [])
+        self.checker_cmd = "cd /verif/lean && lake build %s cdd_model && lake env lean .audit/Audit_%s.lean  # #print axioms" % (" ".join(targets), self.prop)
+        # (1) the property's own modules: a failure here is a broken proof obligation
         ok, log = lake_build(targets)
+        # (2) the shared driver (all properties' ops): a failure here that is not caused by this property's modules is a
+        #     problem of the machinery (exit 2), never a verdict about the property
+        okd, logd = lake_build(["cdd_model"])
+        if not okd:
+            own = {str(p.relative_to(LEAN))[:-5].replace("/", ".") for p in lean_deps(module)}
+            bad = set(failing_modules(logd))
+            if ok and not (bad & own):
+                raise HarnessError("the shared Lean driver does not build (modules of another property are broken): %s" % sorted(bad))
+            self.oblige("lake build cdd_model", "build", False, logd[-3000:])
         if not ok:
-            # the driver must exist for the correspondence; try to build it alone
-            ok2, log2 = lake_build(["cdd_model"])
-            if not ok2:
-                self.oblige("lake build cdd_model", "build", False, log2[-3000:])
             bad = failing_modules(log)
             self.oblige("lake build %s" % module, "build", False, "failing modules: %s\n%s" % (bad, log[-3000:]))
             for t in theorems:
